@@ -42,6 +42,12 @@ func expect(o gen.NestedOpt) expectation {
 	e := expectation{}
 	notEvidence := o.DefectLevel == 2 && (o.Defect == "sub-other-key" || o.Defect == "sub-sig-corrupt")
 	switch {
+	case o.CoSub == "both-complete":
+		e.accept, e.allMarkers = true, true
+	case o.CoSub != "":
+		// two functionaries hand in the same sublayout; the evidence of one of them is missing: the step has
+		// one verifiable sublayout for threshold 2
+		e.accept, e.noMarkerUpTo = false, 1
 	case notEvidence && o.CoThreshold == 1 && o.ParentRules == "match":
 		// a layout that is not validly signed by the functionary it is filed under is no evidence at all;
 		// the co-functionary's link serves the step and the layout is not followed
@@ -74,7 +80,7 @@ func once(c *mcx.Ctx, n *gen.Nested, ch *mcx.Chooser) (obs, sig string) {
 	intoto.VerifPermHook = func(site string, k int) []int { return ch.Perm(site, k) }
 	intoto.VerifNowHook = func() time.Time { return T }
 	defer func() { intoto.VerifPermHook, intoto.VerifNowHook = nil, nil }()
-	sum, err := gen.VerifyAt(c.Work, 0, n.Root, n.Keys, n.LinkDir, nil, nil)
+	sum, err := gen.VerifyAt(c.Work, o.Entry, n.Root, n.Keys, n.LinkDir, nil, nil)
 	c.Impl(1)
 	markers := n.MarkersPresent()
 	sort.Ints(markers)
@@ -85,6 +91,12 @@ func once(c *mcx.Ctx, n *gen.Nested, ch *mcx.Chooser) (obs, sig string) {
 	}
 	cls := fmt.Sprintf("depth=%d|defect=%s@%d|delegate=%s|parent-rules=%s|single-step=%v|sibling=%v|%s", o.Depth, o.Defect, o.DefectLevel, o.Delegate, o.ParentRules, o.SingleStep, o.Sibling, wrp)
 	short := fmt.Sprintf("defect=%s|delegate=%s|parent-rules=%s|single-step=%v|sibling=%v|co-functionary-threshold=%d|extra-signer=%v|%s", o.Defect, o.Delegate, o.ParentRules, o.SingleStep, o.Sibling, o.CoThreshold, o.ExtraSigner, wrp)
+	if o.CoSub != "" {
+		short += "|same-sublayout-from-two-functionaries=" + o.CoSub
+	}
+	if o.Entry == 1 {
+		short += "|with-run-directory"
+	}
 	_ = cls
 	if err != nil {
 		obs = fmt.Sprintf("rejected (%s); markers of levels %v", clip(err.Error()), markers)
@@ -218,10 +230,29 @@ func enumerate(thorough bool, emit func(gen.NestedOpt)) {
 	}
 }
 
+// enumerateAll: the family under both verification entry points, plus the nestings in which two
+// functionaries hand in the same sublayout for a threshold-2 step.
+func enumerateAll(thorough bool, emit func(gen.NestedOpt)) {
+	for entry := 0; entry < 2; entry++ {
+		enumerate(thorough, func(o gen.NestedOpt) {
+			o.Entry = entry
+			emit(o)
+		})
+		for _, dsse := range []bool{false, true} {
+			for _, single := range []bool{false, true} {
+				for _, cs := range []string{"both-complete", "second-directory-missing", "second-directory-without-links"} {
+					emit(gen.NestedOpt{Depth: 2, DSSE: dsse, Delegate: "authorised", ParentRules: "match", SingleStep: single, CoSub: cs, Entry: entry,
+						Expired: T.Add(-time.Hour).Format("2006-01-02T15:04:05Z")})
+				}
+			}
+		}
+	}
+}
+
 func run(c *mcx.Ctx) {
 	defer silence()()
 	var n int64
-	enumerate(c.Thorough(), func(o gen.NestedOpt) {
+	enumerateAll(c.Thorough(), func(o gen.NestedOpt) {
 		n++
 		if !c.Mine(n) {
 			return
@@ -233,7 +264,7 @@ func run(c *mcx.Ctx) {
 		sig, obs, choices, ex, outs := explore(c, o, bound)
 		c.Step(1, ex.PointsSeen)
 		c.Depth(ex.MaxDepth)
-		c.Case(o.Defect != "" || o.Delegate != "authorised" || o.ParentRules != "match" || o.Sibling || o.SingleStep)
+		c.Case(o.Defect != "" || o.Delegate != "authorised" || o.ParentRules != "match" || o.Sibling || o.SingleStep || o.CoSub != "" || o.Entry == 1)
 		e := expect(o)
 		c.Outcome(map[bool]string{true: "accept", false: "reject"}[e.accept] + "|" + map[bool]string{true: "delegate-authorised", false: "delegate-not-authorised"}[o.Delegate == "authorised"])
 		if sig != "" {
@@ -262,7 +293,7 @@ func replay(c *mcx.Ctx, raw json.RawMessage) (string, string) {
 func init() {
 	mcx.Register(&mcx.Driver{
 		ID: "C08", Run: run, Replay: replay,
-		Rule: "full product over a generated family of nested supply chains: nesting depth 2 (thorough: + 3) x deepest layout with two steps or one step x with/without a second delegation by another functionary x with/without a second authorised functionary delivering a plain link for the delegated step (threshold 1 / 2) x with/without a foreign signature in front of the delegate's on the sublayout x who offers the level-2 layout {authorised, defined but not listed for the step, foreign} x parent rules {matching the summary, violated by it} x defect {none, sublayout signed by another key, signature corrupted, expired (owned clock), link missing / tampered / by an unauthorised key, rule violated, threshold unmet} x level of the defect 1..depth x {legacy, DSSE}; " +
+		Rule: "full product over a generated family of nested supply chains: nesting depth 2 (thorough: + 3) x deepest layout with two steps or one step x with/without a second delegation by another functionary x with/without a second authorised functionary delivering a plain link for the delegated step (threshold 1 / 2) x with/without a foreign signature in front of the delegate's on the sublayout x who offers the level-2 layout {authorised, defined but not listed for the step, foreign} x parent rules {matching the summary, violated by it} x defect {none, sublayout signed by another key, signature corrupted, expired (owned clock), link missing / tampered / by an unauthorised key, rule violated, threshold unmet} x level of the defect 1..depth x {legacy, DSSE} x {InTotoVerify, InTotoVerifyWithDirectory with a run directory that is not the link directory}; plus, for a threshold-2 step, the same sublayout handed in by two functionaries with both directories complete, the second missing, the second without links; " +
 			"each under every order of the sublayout loops and the counting loop (thorough: + one deviation elsewhere). Every layout carries a marker inspection. quick keeps unauthorised delegations to defect-free chains. non-trivial = anything but the plain honest 2-step nesting. states = cases, transitions = choice points.",
 		Assumptions: []string{"the verdict is known by construction; REQUIRE rules in every parent make an empty or wrong summary visible", "sublayouts delegated to a certificate functionary are outside the family (don't-care)"},
 	})
